@@ -253,6 +253,12 @@ static void in_task(F f)
     while (!done.load(std::memory_order_acquire)) std::this_thread::sleep_for(std::chrono::microseconds(50));
 }
 
+// the model predicts invalid_status for every rejected call; any other error code is reported as such
+static std::string errstr(pika::exception const& e)
+{
+    return e.get_error() == pika::error::invalid_status ? std::string("E") : "X" + std::to_string(int(e.get_error()));
+}
+
 static bool runtime_present() { return pika::detail::get_runtime_ptr() != nullptr; }
 
 // states of all workers of the default pool
@@ -399,9 +405,9 @@ int main(int argc, char** argv)
                         pika::wait();
                         ledger_check("wait_from_task_returned_early", s, self, oi);
                     }
-                    catch (pika::exception const&)
+                    catch (pika::exception const& e)
                     {
-                        r2 = "E";
+                        r2 = errstr(e);
                     }
                 });
                 resp = r2;
@@ -453,9 +459,9 @@ int main(int argc, char** argv)
                             r2 = "R" + std::to_string(v);
                         }
                     }
-                    catch (pika::exception const&)
+                    catch (pika::exception const& e)
                     {
-                        r2 = "E";
+                        r2 = errstr(e);
                     }
                 });
                 resp = r2;
@@ -524,7 +530,7 @@ int main(int argc, char** argv)
         }
         catch (pika::exception const& e)
         {
-            resp = "E";
+            resp = errstr(e);
             std::fprintf(stderr, "op %d %s: %s\n", oi, op.c_str(), e.what());
         }
         catch (std::exception const& e)
